@@ -203,6 +203,8 @@ class Controller:
         else:
             # adapt tolerances to time step
             stepper_atol = 1e-6 * dt  # control loop termination and min advance
+            if t_end > t_start:  # time step might exceed the entire time range
+                stepper_atol = min(stepper_atol, 1e-6 * (t_end - t_start))
             tracker_atol = 0.5 * dt  # allow firing within half a step of the interrupt
             if self.diagnostics["solver"].get("dt_adaptive"):
                 tracker_atol = stepper_atol  # adaptive steppers hit interrupts exactly
@@ -231,7 +233,7 @@ class Controller:
 
                 # update the tolerances to reflect changes in time step `dt`
                 if dt := self.diagnostics["solver"].get("dt"):
-                    stepper_atol = 1e-6 * dt
+                    stepper_atol = min(1e-6 * dt, 1e-6 * (t_end - t_start))
                     tracker_atol = 0.5 * dt
                     if self.diagnostics["solver"].get("dt_adaptive"):
                         tracker_atol = stepper_atol
